@@ -3,12 +3,41 @@
 (nothing from /verif except the property texts).  Used to measure false alarms of the registered checks.
 usage: benign_prompt.py <group-name> <Cxx> [<Cxx> ...]"""
 import json, sys
+style = "maint"
+if "--style" in sys.argv:
+    i = sys.argv.index("--style"); style = sys.argv[i+1]; del sys.argv[i:i+2]
 name = sys.argv[1]
 pids = sys.argv[2:]
 props = [json.loads(l) for l in open('/verif/properties.jsonl')]
 sel = [p for p in props if p['id'] in pids]
 wt = f"/tmp/wt/{name}"
 short = [{"id": p["id"], "title": p["title"], "statement": p["statement"], "anchors": {k: p["anchors"].get(k) for k in ("files", "state", "mechanism")}} for p in sel]
+KINDS_MAINT = """  - rename locals / parameters / private helper functions or private fields (keeping every public name),
+  - extract a few statements into a private helper fn or inline a small private helper into its caller,
+  - re-express control flow equivalently (match <-> if let, loop+break <-> while, early return <-> else branch, for <-> index loop, `?`-style combinators
+    <-> explicit match, negated condition with swapped arms),
+  - equivalent comparisons / arithmetic (a <= b <-> b >= a <-> a < b+1 where no overflow is possible; x % N <-> x & (N-1) only where N is enforced to be a
+    power of two; wrapping_sub <-> overflowing_sub().0),
+  - reorder statements that are truly independent, introduce or remove a named temporary, hoist a loop-invariant read that is genuinely invariant,
+  - STRENGTHEN a memory ordering (Relaxed -> Acquire/Release/SeqCst) or add a harmless extra wake / extra fence / debug log / debug_assert / comment / doc,
+  - add an unrelated private method, field or trait impl that nothing on the property's paths uses,
+  - move a method between impl blocks of the same type, or a private fn between modules (with re-export kept).
+"""
+KINDS_ADD = """  - ADD a correct small feature next to the mechanism: a new public or crate-private read-only query (is_full / is_empty / capacity / free_slots / a Debug or Display
+    impl / a metrics getter), a `#[must_use]` / `#[inline]` / `#[cold]` attribute, a const assertion, a new constructor that delegates to the existing one, a
+    `Default` impl that calls `new()`, a `with_capacity`-style alias, an extra trait impl (`AsRef`, `From`, `Debug`) that is correct,
+  - ADD a correct convenience wrapper that composes existing operations without changing them (e.g. `send_all(iter)` calling `send` per item and stopping at the first
+    rejection; `try_send_or(item, f)`; `drain_into(vec)` built on the existing consume; `close_now()` = existing cancel + existing wait),
+  - PERFORMANCE-style edits that keep semantics: `std::hint::spin_loop()` added in a spin, `#[inline(always)]`, a `likely`-style reordering of match arms, replacing
+    `x % N` by `x & (N-1)` where N is enforced a power of two, caching a *constant / immutable* value (a generic const, a field that is never written after
+    construction) in a local, `CachePadded` around a field, pre-sizing a Vec, avoiding a redundant clone, replacing `Box<[T]>` iteration styles,
+  - HARDENING-style edits that keep semantics: strengthen a memory ordering, add a fence, add a `debug_assert!` / `assert!` of something that is always true, add an
+    overflow-safe spelling (`wrapping_add` for `overflowing_add().0`), add bounds-checked indexing in place of `get_unchecked`, add an extra (redundant) wake, make a
+    private field `pub(crate)` -> private or the reverse when nothing else changes, add `#[derive(Debug)]`, add a `Drop` impl that only logs,
+  - LOGGING / TRACING / DOC edits inside the mechanism functions (trace!/debug! lines that read only immutable or already-read values), new doc comments, `#[allow(..)]`,
+  - declaration-level edits that keep semantics: reorder fields where drop order does not matter (say why), reorder trait methods / impl blocks, change a generic
+    parameter name, turn a magic number into a named const with the same value, turn an associated const into a `const fn` call with the same value.
+"""
 print(f"""You are helping to test a static verification tool for false alarms. You have your own scratch git worktree of a Rust library
 (zertyz/reactive-mutiny: async reactive event library with Uni/Multi channels over custom lock-free queues, pool allocators, OgreArc refcounting,
 an mmap log channel and stream executors) at {wt}. Work ONLY inside {wt} and {wt}-out. Never read or write /repo or /verif.
@@ -21,17 +50,7 @@ analysis of the source. We need to know whether it raises alarms on code where t
 
 YOUR TASK: produce EIGHT different, independent, realistic BEHAVIOUR-PRESERVING changes to the library's non-test source under {wt}/src, each touching
 code at or near the anchors above (the mechanisms the properties rest on), such as a maintainer would make in ordinary maintenance:
-  - rename locals / parameters / private helper functions or private fields (keeping every public name),
-  - extract a few statements into a private helper fn or inline a small private helper into its caller,
-  - re-express control flow equivalently (match <-> if let, loop+break <-> while, early return <-> else branch, for <-> index loop, `?`-style combinators
-    <-> explicit match, negated condition with swapped arms),
-  - equivalent comparisons / arithmetic (a <= b <-> b >= a <-> a < b+1 where no overflow is possible; x % N <-> x & (N-1) only where N is enforced to be a
-    power of two; wrapping_sub <-> overflowing_sub().0),
-  - reorder statements that are truly independent, introduce or remove a named temporary, hoist a loop-invariant read that is genuinely invariant,
-  - STRENGTHEN a memory ordering (Relaxed -> Acquire/Release/SeqCst) or add a harmless extra wake / extra fence / debug log / debug_assert / comment / doc,
-  - add an unrelated private method, field or trait impl that nothing on the property's paths uses,
-  - move a method between impl blocks of the same type, or a private fn between modules (with re-export kept).
-Each change must be SEMANTICALLY NEUTRAL with respect to every property above under EVERY interleaving, input and history (do not weaken orderings,
+{KINDS_ADD if style=='additive' else KINDS_MAINT}Each change must be SEMANTICALLY NEUTRAL with respect to every property above under EVERY interleaving, input and history (do not weaken orderings,
 do not move a read/write across a synchronisation point, do not change which value a guard compares, do not change when wakes / releases / publications
 happen relative to each other except by adding strictly more wakes). If in doubt whether an edit is neutral, pick another one. Aim for variety across
 the eight (different files, different kinds of refactor); at least half should touch the *core* mechanism functions named in the anchors, not only
